@@ -12,6 +12,8 @@ pub enum PingFault {
     /// echo the value of the previous PING seen on this server instead
     Stale,
     Wrong,
+    /// an error reply with one of the error codes redis-rs knows (index into ERROR_REPLIES)
+    ErrorCode(u8),
     /// a value that merely looks like the one sent: "07", "+7", "7 ", " 7", "7.0" for "7"
     Lookalike(u8),
     Error,
@@ -19,6 +21,25 @@ pub enum PingFault {
     /// never answer
     Silence,
 }
+
+/// Error replies with the codes redis-rs maps to its own error kinds: every one of them is "an error reply".
+pub const ERROR_REPLIES: &[&str] = &[
+    "LOADING Redis is loading the dataset in memory",
+    "BUSY Redis is busy running a script",
+    "NOAUTH Authentication required.",
+    "READONLY You can't write against a read only replica.",
+    "MASTERDOWN Link with MASTER is down and replica-serve-stale-data is set to 'no'.",
+    "CLUSTERDOWN The cluster is down",
+    "TRYAGAIN Multiple keys request during rehashing of slot",
+    "MOVED 3999 127.0.0.1:1",
+    "ASK 3999 127.0.0.1:1",
+    "EXECABORT Transaction discarded because of previous errors.",
+    "NOSCRIPT No matching script.",
+    "WRONGTYPE Operation against a key holding the wrong kind of value",
+    "NOPERM this user has no permissions to run the 'ping' command",
+    "MISCONF Redis is configured to save RDB snapshots",
+    "OOM command not allowed when used memory > 'maxmemory'.",
+];
 
 #[derive(Default)]
 pub struct RConn {
@@ -175,6 +196,7 @@ async fn serve(mut s: TcpStream, k: usize, st: Arc<Mutex<RConn>>, server: Arc<RS
                             out.extend(bulk(&l))
                         }
                         Some(PingFault::Error) => out.extend(b"-ERR scripted failure\r\n"),
+                        Some(PingFault::ErrorCode(k)) => out.extend(format!("-{}\r\n", ERROR_REPLIES[k as usize % ERROR_REPLIES.len()]).as_bytes()),
                         Some(PingFault::Disconnect) => break 'outer,
                         Some(PingFault::Silence) => {}
                     }
@@ -182,7 +204,8 @@ async fn serve(mut s: TcpStream, k: usize, st: Arc<Mutex<RConn>>, server: Arc<RS
                 "UNWATCH" => {
                     let refuse = std::mem::take(&mut st.lock().unwrap().refuse_unwatch);
                     if refuse {
-                        out.extend(b"-NOPERM scripted refusal\r\n");
+                        let k = server.seq.load(Ordering::SeqCst) as usize;
+                        out.extend(format!("-{}\r\n", ERROR_REPLIES[k % ERROR_REPLIES.len()]).as_bytes());
                     } else {
                         st.lock().unwrap().watching = false;
                         out.extend(b"+OK\r\n");
